@@ -22,11 +22,13 @@ PLAN = dict(
     floor=dict(quick=4000, thorough=80000),
     tiers=dict(
         quick=[det("rel", H, "cs-rel", 16, 600, 5, tso=True, time_cap=22),
-               det("dbg", H, "cs-dbg", 16, 250, 5, tso=True, time_cap=14)],
+               det("dbg", H, "cs-dbg", 16, 250, 5, tso=True, time_cap=14),
+               tsan("C12", 4, 80)],
         thorough=[det("rel", H, "cs-rel", 16, 6000, 6, tso=True, time_cap=280),
                   det("dbg", H, "cs-dbg", 16, 2000, 6, tso=True, time_cap=160),
                   det("enum-conflict", H, "cs-rel", 16, 200, 2, tso=True, time_cap=90, enum="conflict", enum_cap=200),
-                  det("enum-firstpc", H, "cs-rel", 16, 200, 2, tso=True, time_cap=90, enum="firstpc", enum_cap=200)],
+                  det("enum-firstpc", H, "cs-rel", 16, 200, 2, tso=True, time_cap=90, enum="firstpc", enum_cap=200),
+               tsan("C12", 16, 600)],
     ),
 )
 TEXT = dict(
